@@ -1478,6 +1478,65 @@ SUBCHECKS = [("a", chk_a_get_params), ("b", chk_b_roundtrip), ("c", chk_c_twins)
 NEEDS_SKLEARN = {"a", "b", "c", "d", "e", "g"}
 
 
+def chk_replace_and_nested(ctx):
+    """set_params(sub=<new estimator>, sub__name=value) in ONE call (what a GridSearchCV grid over both does):
+    the nested value must land on the NEW sub-estimator, the replaced one stays as it was, and the result
+    behaves like an estimator constructed with these values — for the wrappers whose nested route works."""
+    from artlib import SimpleARTMAP, ARTMAP, DualVigilanceART, FuzzyART
+    import copy
+    for i in range(ctx.scale(24, 200)):
+        r = gen.rng_for(ctx.seed, "C19/replace+nested", i)
+        kind = ["SimpleARTMAP", "ARTMAP.module_a", "ARTMAP.module_b", "DualVigilanceART"][i % 4]
+        rho_old, rho_new0, rho_new = r.choice([0.125, 0.25]), r.choice([0.375, 0.5]), r.choice([0.75, 0.875])
+        mk = lambda rho: FuzzyART(rho, 2.0 ** -10, 1.0)   # noqa
+        old, new = mk(rho_old), mk(rho_new0)
+        if kind == "SimpleARTMAP":
+            B, A, key = SimpleARTMAP(old), SimpleARTMAP(mk(rho_new)), "module_a"
+        elif kind == "ARTMAP.module_a":
+            B, A, key = ARTMAP(old, mk(0.5)), ARTMAP(mk(rho_new), mk(0.5)), "module_a"
+        elif kind == "ARTMAP.module_b":
+            B, A, key = ARTMAP(mk(0.5), old), ARTMAP(mk(0.5), mk(rho_new)), "module_b"
+        else:
+            B, A, key = DualVigilanceART(old, 0.0625), DualVigilanceART(mk(rho_new), 0.0625), "base_module"
+        kw = {key: new, key + "__rho": rho_new}
+        if r.random() < 0.5:
+            kw = dict(reversed(list(kw.items())))
+        rep = {"kind": kind, "set_params": {k: (v if isinstance(v, float) else "FuzzyART(rho=%s)" % rho_new0) for k, v in kw.items()},
+               "rho_old": rho_old}
+        sig = f"{kind.split('.')[0]}.set_params:replace-sub-estimator-and-nested-value"
+        try:
+            with quiet():
+                B.set_params(**kw)
+        except Exception as e:
+            ctx.issue("violation", sig, f"raised {e!r}", rep)
+            continue
+        sub = getattr(B, key)
+        if sub is not new or sub.params["rho"] != rho_new or old.params["rho"] != rho_old:
+            ctx.issue("violation", sig, f"after the call: sub-estimator is the new one: {sub is new}; its rho = {sub.params['rho']} "
+                      f"(expected {rho_new}); the replaced estimator's rho = {old.params['rho']} (was {rho_old})", rep)
+            continue
+        X = gen.cc(gen.grid_rows(r, 12, 2))
+        y = gen.labels(r, 12, 3)
+        try:
+            with quiet():
+                if kind == "DualVigilanceART":
+                    A.fit(X); B.fit(X)
+                    same = A.labels_.tolist() == B.labels_.tolist()
+                elif kind.startswith("ARTMAP"):
+                    yy = gen.cc(gen.grid_rows(r, 12, 1, style="coarse"))
+                    A.fit(X, yy); B.fit(X, yy)
+                    same = A.labels_a.tolist() == B.labels_a.tolist() and A.labels_b.tolist() == B.labels_b.tolist()
+                else:
+                    A.fit(X, y); B.fit(X, y)
+                    same = A.labels_a.tolist() == B.labels_a.tolist() and A.map == B.map
+            if not same:
+                ctx.issue("violation", sig, "configured through set_params it trains differently from one constructed with these values", rep)
+        except Exception as e:
+            ctx.issue("violation", sig, f"training raised {e!r}", rep)
+        ctx.cov.case(("replace+nested", kind, rho_old, rho_new0, rho_new, list(kw)), True)
+        ctx.cov.hit("replace+nested:" + kind)
+
+
 def run(ctx):
     ctx.trusted += ["Python object graphs (deepcopy, pickle, sklearn.clone, `fit(...) is est`, instance independence, "
                     "aliasing of caller arrays) are NOT modelled in Lean: clauses f–j and the compound classes are "
@@ -1502,6 +1561,7 @@ def run(ctx):
                     fn(c)
                 except Exception as e:  # the machinery must not hide a crash as a pass
                     raise RuntimeError(f"C19 sub-check {tag} crashed on {S.name} index {idx}: {e!r}") from e
+    chk_replace_and_nested(ctx)
     chk_shared_defaults(ctx, shared)
     ctx.cov.sample({"subjects": [S.name for S in subjects], "rounds_per_subject": rounds,
                     "shared_mutable_defaults_watched": sorted(shared)})
